@@ -124,6 +124,22 @@ def token_mutations(src: str, alphabet, pairs=False):
             if a != toks[i][1]:
                 yield 'replace', render_tokens(toks[:i] + [(tokenize.OP, a)] + toks[i + 1:])
             yield 'insert', render_tokens(toks[:i] + [(tokenize.OP, a)] + toks[i:])
+    # well-formed deviations: one annotation removed (': T' of a parameter or variable, '-> T' of a function), one
+    # name replaced by an undefined one, one call argument dropped
+    for i, (typ, text) in enumerate(toks):
+        if text in (':', '->') and i + 1 < len(toks) and toks[i + 1][0] == tokenize.NAME and toks[i + 1][1] not in ('pass', 'return', 'raise', 'if', 'for', 'while'):
+            j = i + 2
+            if j < len(toks) and toks[j][1] == '[':   # generic annotation: drop the bracket group as well
+                depth = 0
+                while j < len(toks):
+                    depth += toks[j][1] == '['
+                    depth -= toks[j][1] == ']'
+                    j += 1
+                    if depth == 0:
+                        break
+            yield 'drop-annotation', render_tokens(toks[:i] + toks[j:])
+        if typ == tokenize.NAME and i > 0 and toks[i - 1][1] not in ('def', 'class', 'import', 'from', 'as', '.'):
+            yield 'undefined-name', render_tokens(toks[:i] + [(tokenize.NAME, 'zz_undefined')] + toks[i + 1:])
     # layout deviations: one INDENT/DEDENT removed or added, one NEWLINE removed
     for i, (typ, _) in enumerate(toks):
         if typ in (tokenize.INDENT, tokenize.DEDENT, tokenize.NEWLINE):
@@ -255,11 +271,6 @@ def judge_text(kind: str, text: str, k: int):
             _state['dsession'] = None
         if r2b[0] in ('raw', 'timeout'):
             _state['dsession'] = None
-    try:
-        os.remove(fp)
-    except OSError:
-        pass
-    shutil.rmtree(os.path.join(wd, '.cache', 'tranp', pkg), ignore_errors=True)
     parsable_by['disk-second-run'] = parsable_by['disk']
     for path, r in (('memory', r1), ('disk', r2)) + ((('disk-second-run', r2b),) if r2b else ()):
         if path != 'disk-second-run':
@@ -280,6 +291,12 @@ def judge_text(kind: str, text: str, k: int):
                 viol.append((['render-raises', type(e).__name__, r[1], path], f'{path}: ErrorRender raised {type(e).__name__}: {e} for {r[1]} on {text!r}', rep))
         elif r[0] == 'ok' and not parsable_by[path]:
             viol.append((['unparsable-accepted', path], f'{path}: the grammar rejects the text but the pipeline succeeded: {text!r}', rep))
+    # the module file stays in place until its errors have been rendered (the quotation reads the file)
+    try:
+        os.remove(fp)
+    except OSError:
+        pass
+    shutil.rmtree(os.path.join(wd, '.cache', 'tranp', pkg), ignore_errors=True)
     if r1[0] in ('raw', 'timeout'):
         _state['session'] = None   # do not let a crashed session influence later cases
     else:
@@ -320,11 +337,6 @@ def judge_bytes(kind: str, text: str, k: int):
         _state['dsession'] = None
     msess = Session({'__main__': f'from {pkg}.b{k} import f\n\ndef main() -> int:\n\treturn f(1, 2)\n'})
     r_imp = classify(lambda: pipeline(msess, '__main__'))
-    try:
-        os.remove(fp)
-    except OSError:
-        pass
-    shutil.rmtree(os.path.join(wd, '.cache', 'tranp', pkg), ignore_errors=True)
     outcomes = []
     for path, r in (('disk', r_disk), ('imported', r_imp)):
         outcomes.append(r[0] if r[0] != 'error' else f'error:{r[1]}')
@@ -341,6 +353,11 @@ def judge_bytes(kind: str, text: str, k: int):
                 viol.append((['render-raises', type(e).__name__, r[1], path], f'{path}: ErrorRender raised {type(e).__name__}: {e} for {r[1]}', rep))
         elif r[0] == 'ok':
             viol.append((['undecodable-accepted', path], f'{path}: a file that is not valid UTF-8 was processed without error', rep))
+    try:
+        os.remove(fp)
+    except OSError:
+        pass
+    shutil.rmtree(os.path.join(wd, '.cache', 'tranp', pkg), ignore_errors=True)
     return viol, tuple(outcomes), False
 
 
@@ -361,6 +378,53 @@ def byte_files(src: str, every: int):
         for off in range(0, len(data) + 1, every):
             yield f'raw-bytes:{bad!r}', (data[:off] + bad + data[off:]).decode('latin-1')
     yield 'raw-bytes:utf-16', src.encode('utf-16').decode('latin-1')
+
+
+CLI_OPTIONS = [(), ('-p',)]   # -p: profile the run (documented option of bin/transpile)
+
+
+def cli_task(task):
+    """bin/transpile on a one-module project: a history of (file content as latin-1 text, forced?, extra options)."""
+    import shutil
+    from mc.tranp.workspace import Workspace, scratch_root
+    label, steps = task
+    root = scratch_root('c07-cli-')
+    viol = []
+    outcomes = []
+    try:
+        ws = Workspace.create(os.path.join(root, 'ws'))
+        for k, (content, force, opts) in enumerate(steps):
+            fp = os.path.join(ws.root, 'proj', 'm.py')
+            with open(fp, 'wb') as f:
+                f.write(content.encode('latin-1'))
+            os.utime(fp, (1_700_000_000 + k * 10, 1_700_000_000 + k * 10))
+            r = ws.run(force=force, extra_args=opts)
+            outcomes.append(r[0] if r[0] == 'ok' else f'error:{r[1]}')
+            if r[0] != 'ok' and not (len(r) > 3 and r[3]):
+                viol.append((['cli', 'raw-exception', r[1], 'options=' + ' '.join(opts), f'step={k}', 'forced' if force else 'not-forced'],
+                             f'bin/transpile {"-f " if force else ""}{" ".join(opts)} (step {k} of {label}): {r[1]}: {r[2][:160]}', {'cli': label, 'steps': [list(s) for s in steps]}))
+                break
+    finally:
+        shutil.rmtree(root, ignore_errors=True)
+    return viol, tuple(outcomes)
+
+
+def cli_cases(ctx):
+    good = SEEDS['func']
+    texts = list(SEEDS.items()) + list(ILL_TYPED.items()) + [('syntax-1', 'def f(:\n'), ('syntax-2', 'x = (1,\n'), ('syntax-3', '\tx = 1\n')]
+    tasks = []
+    for k, (name, text) in enumerate(texts):
+        # quick: every program without options; with -p the seeds, the syntax errors and every fifth ill-typed program
+        both = (not ctx.quick) or name in SEEDS or name.startswith('syntax') or k % 5 == 0
+        for opts in (CLI_OPTIONS if both else CLI_OPTIONS[:1]):
+            tasks.append((f'{name} {" ".join(opts)}', [(text, True, opts)]))
+    bad_bytes = (good.encode('utf-8')[:20] + b'\xe9' + good.encode('utf-8')[20:]).decode('latin-1')
+    # histories on one project directory: a good run first, then the file changes and the next run is not forced
+    for name, second in [('then-syntax-error', 'def f(:\n'), ('then-ill-typed', ILL_TYPED['undefined-name']), ('then-undecodable', bad_bytes), ('then-empty', ''), ('then-unchanged', good)]:
+        for opts in CLI_OPTIONS:
+            tasks.append((f'good {name} {" ".join(opts)}', [(good, True, ()), (second, False, opts)]))
+            tasks.append((f'good {name} then good {" ".join(opts)}', [(good, True, ()), (second, False, opts), (good, False, opts)]))
+    return tasks
 
 
 def cases(ctx):
@@ -393,6 +457,7 @@ def cases(ctx):
 
 
 def run(ctx):
+    import rogw.tranp.bin.transpile  # noqa  (imported once in the parent; CLI children are forks)
     cs = cases(ctx)
     ctx.log(f'{len(cs)} texts')
     from mc.props.c01 import warm_parent
@@ -408,11 +473,19 @@ def run(ctx):
             parsable += 1 if p else 0
             outcomes[oc] = outcomes.get(oc, 0) + 1
             ctx.merge(viol)
+    cli = cli_cases(ctx)
+    res_cli = pool.pmap(cli_task, cli, workers=ctx.workers)
+    cli_outcomes = {}
+    for viol, oc in res_cli:
+        cli_outcomes[' > '.join(oc)] = cli_outcomes.get(' > '.join(oc), 0) + 1
+        ctx.merge(viol)
     top = sorted(outcomes.items(), key=lambda kv: -kv[1])[:25]
     return {
-        'evaluations': n * 2,
+        'evaluations': n * 2 + len(cli),
+        'cli_histories': len(cli),
+        'cli_outcomes': dict(sorted(cli_outcomes.items(), key=lambda kv: -kv[1])[:12]),
         'distinct_nontrivial': n,
-        'rule': f'seeds {list(SEEDS)}; ill-typed programs {len(ILL_TYPED)}; every single token deviation (delete, duplicate, replace/insert each of {len(TOKEN_ALPHABET) if not ctx.quick else len(TOKEN_ALPHABET[::3])} tokens, layout token removed/added) of all seeds; every truncation and every byte insertion {BYTES!r} at every offset of {"all" if not ctx.quick else "2"} seeds; token soups of length <= {2 if ctx.quick else 3}; texts are distinct; each runs in memory and on disk; every text the grammar accepts is processed a second time on disk against the cache files the first run left (history of length 2); module files that are not valid UTF-8 (each of {BAD_BYTES!r} inserted at every byte offset of {"one seed" if ctx.quick else "all seeds"}, and a UTF-16 file) as target and imported from an in-memory main',
+        'rule': f'seeds {list(SEEDS)}; ill-typed programs {len(ILL_TYPED)}; every single token deviation (delete, duplicate, replace/insert each of {len(TOKEN_ALPHABET) if not ctx.quick else len(TOKEN_ALPHABET[::3])} tokens, layout token removed/added) of all seeds; every truncation and every byte insertion {BYTES!r} at every offset of {"all" if not ctx.quick else "2"} seeds; token soups of length <= {2 if ctx.quick else 3}; texts are distinct; each runs in memory and on disk; every text the grammar accepts is processed a second time on disk against the cache files the first run left (history of length 2); module files that are not valid UTF-8 (each of {BAD_BYTES!r} inserted at every byte offset of {"one seed" if ctx.quick else "all seeds"}, and a UTF-16 file) as target and imported from an in-memory main; CLI layer: bin/transpile on a one-module project for every seed, ill-typed program and 3 syntax errors x options {CLI_OPTIONS}{" (-p on the seeds, the syntax errors and every fifth ill-typed program)" if ctx.quick else ""}, and histories good run -> changed file (syntax error, ill-typed, undecodable, empty, unchanged) -> not forced run (-> good again)',
         'samples': [cs[0][1][:80], cs[len(cs) // 2][1][:80], cs[-1][1][:40]],
         'accepted_by_grammar': parsable,
         'outcome_pairs_memory_disk': {f'{a}|{b}': c for (a, b), c in top},
@@ -422,5 +495,10 @@ def run(ctx):
 
 
 def replay(ctx, data):
+    if 'cli' in data:
+        import rogw.tranp.bin.transpile  # noqa
+        viol, _ = cli_task((data['cli'], [tuple(s[:2]) + (tuple(s[2]),) for s in data['steps']]))
+        ctx.merge(viol)
+        return
     viol, _, _ = (judge_bytes if data['kind'].startswith('raw-bytes') else judge_text)(data['kind'], data['text'], 0)
     ctx.merge(viol)
